@@ -6,6 +6,9 @@ pub mod dev;
 pub mod devq;
 pub mod dynq;
 pub mod hal;
+pub mod mmio_dev;
+pub mod pci_dev;
+pub mod tkind;
 pub mod ring;
 pub mod runner;
 pub mod world;
